@@ -856,7 +856,9 @@ def generalized_bisection(ctx,f,a,b,n):
 def find_in_interval(ctx, f, ab):
     return ctx.findroot(f, ab, solver='illinois', verify=False)
 
-def bessel_zero(ctx, kind, prime, v, m, isoltol=0.01, _interval_cache={}):
+def bessel_zero(ctx, kind, prime, v, m, isoltol=0.01):
+    # cache per context: the intervals are numbers of this context
+    _interval_cache = ctx._misc_const_cache
     prec = ctx.prec
     workprec = max(prec, ctx.mag(v), ctx.mag(m))+10
     try:
@@ -885,8 +887,9 @@ def bessel_zero(ctx, kind, prime, v, m, isoltol=0.01, _interval_cache={}):
                 # TODO: use v <= j'_{v,1} < y_{v,1}?
                 r = 2*ctx.sqrt(v*(1+v)/(v+2))
                 return find_in_interval(ctx, f, (r/10, 2*r))
-        if (kind,prime,v,m) in _interval_cache:
-            return find_in_interval(ctx, f, _interval_cache[kind,prime,v,m])
+        if ('bessel_zero',kind,prime,v,m) in _interval_cache:
+            return find_in_interval(ctx, f,
+                _interval_cache['bessel_zero',kind,prime,v,m])
         r, err = mcmahon(ctx, kind, prime, v, m)
         if err < isoltol:
             return find_in_interval(ctx, f, (r-isoltol, r+isoltol))
@@ -902,7 +905,7 @@ def bessel_zero(ctx, kind, prime, v, m, isoltol=0.01, _interval_cache={}):
                 r2, err2 = mcmahon(ctx, kind, prime, v, n+1)
                 intervals = generalized_bisection(ctx, f, low, 0.5*(r1+r2), n)
                 for k, ab in enumerate(intervals):
-                    _interval_cache[kind,prime,v,k+1] = ab
+                    _interval_cache['bessel_zero',kind,prime,v,k+1] = ab
                 return find_in_interval(ctx, f, intervals[m-1])
             else:
                 n = n*2
